@@ -3,7 +3,7 @@ From Coq Require Import QArith Qabs ZArith List Arith Bool.
 Import ListNotations.
 From PD Require Import Model.Grid Model.Render Model.RenderSym Model.Locate Model.LocateSym Model.Ball Model.Overlap
   Proofs.LocateCart Proofs.BallLift Proofs.C01 Model.Label Proofs.LabelClients Model.Totality
-  Proofs.Components Proofs.C01Cyl Proofs.C01CylPer Proofs.C01Multi Proofs.BallCount.
+  Proofs.Components Proofs.C01Cyl Proofs.C01CylPer Proofs.C01Multi Proofs.BallCount Proofs.C01CylMulti.
 Local Open Scope Q_scope.
 
 (* ===== Cartesian grids of any dimension =====
@@ -135,6 +135,123 @@ Theorem C01_cylindrical_periodic_single : forall (g : cylgrid) c rad img_pad img
 Proof. exact c01_cyl_periodic_single. Qed.
 Print Assumptions C01_cylindrical_periodic_single.
 
+(* ===== cylindrical grids: an EMULSION of on-axis droplets (ds: list of (axial centre, radius)), each inside the z range
+   and covering at least one cell centre, pairwise separated along z by rad_i + rad_j + dz <= |c_i - c_j|;
+   cyl_inside_any g ds i j: cell (i, j) is covered by some droplet (Model/RenderSym.v cyl_mask).
+   Exactly one candidate per original (entry cidx i for droplet i, cidx injective), volume / pi = sum of the shells of
+   the cells the original covers, axial position within half an axial spacing of the original centre ===== *)
+Theorem C01_cylindrical_emulsion : forall (g : cylgrid) (ds : list (Q * Q)) img_pad img,
+  cg_per g = false -> cyl_ok g ->
+  (forall d, In d ds -> cg_zlo g <= fst d - snd d /\ fst d + snd d <= cg_zhi g) ->
+  (forall d, In d ds -> cyl_cells g (fst d) (snd d) <> []) ->
+  (forall i j di dj, nth_error ds i = Some di -> nth_error ds j = Some dj -> i <> j ->
+     snd di + snd dj + cg_dz g <= Qabs (fst di - fst dj)) ->
+  wf_img (cyl_axes g) img -> LabelSpecImg img ->
+  (forall idx, LocateCart.in_range [cg_nr g; cg_nz g] idx ->
+     (lab_of img idx <> 0%nat <-> cyl_inside_any g ds (ridx idx) (zidx idx) = true)) ->
+  length (cyl_candidates g img_pad img) = length ds /\
+  exists cidx : nat -> nat,
+    (forall i, (i < length ds)%nat -> (cidx i < length ds)%nat) /\
+    (forall i j, (i < length ds)%nat -> (j < length ds)%nat -> cidx i = cidx j -> i = j) /\
+    forall i c rad, nth_error ds i = Some (c, rad) ->
+      exists z v, nth_error (cyl_candidates g img_pad img) (cidx i) = Some (z, v) /\
+        v == Components.lsum (cyl_cells g c rad) (fun p => shell g (ridx p)) /\
+        Qabs (z - c) <= cg_dz g / 2.
+Proof. exact c01_cyl_multi_candidates. Qed.
+Print Assumptions C01_cylindrical_emulsion.
+
+(* the same for _locate_droplets_in_mask_cylindrical_single itself (no label spans the z range, as many labels as
+   droplets), with the separation written with squares as in the Cartesian theorems: (rad_i + rad_j + hmax)^2 <=
+   (c_i - c_j)^2 = squared distance of the centres (0, c_i), (0, c_j); only hmax >= dz is needed *)
+Theorem C01_cylindrical_emulsion_single_pass : forall (g : cylgrid) (ds : list (Q * Q)) img hmax,
+  cyl_ok g ->
+  (forall d, In d ds -> cg_zlo g <= fst d - snd d /\ fst d + snd d <= cg_zhi g) ->
+  (forall d, In d ds -> cyl_cells g (fst d) (snd d) <> []) ->
+  0 <= hmax -> cg_dz g <= hmax ->
+  (forall i j di dj, nth_error ds i = Some di -> nth_error ds j = Some dj -> i <> j ->
+     (snd di + snd dj + hmax) * (snd di + snd dj + hmax) <= (fst di - fst dj) * (fst di - fst dj)) ->
+  wf_img (cyl_axes g) img -> LabelSpecImg img ->
+  (forall idx, LocateCart.in_range [cg_nr g; cg_nz g] idx ->
+     (lab_of img idx <> 0%nat <-> cyl_inside_any g ds (ridx idx) (zidx idx) = true)) ->
+  num_labels img = length ds /\
+  exists out, cyl_single g img = Found out /\ length out = length ds /\
+  exists cidx : nat -> nat,
+    (forall i, (i < length ds)%nat -> (cidx i < length ds)%nat) /\
+    (forall i j, (i < length ds)%nat -> (j < length ds)%nat -> cidx i = cidx j -> i = j) /\
+    forall i c rad, nth_error ds i = Some (c, rad) ->
+      exists z v, nth_error out (cidx i) = Some (z, v) /\
+        v == Components.lsum (cyl_cells g c rad) (fun p => shell g (ridx p)) /\
+        Qabs (z - c) <= cg_dz g / 2.
+Proof. exact c01_cyl_multi_euclid. Qed.
+Print Assumptions C01_cylindrical_emulsion_single_pass.
+
+(* periodic cylinder: padded image ([nr; 3 nz] cells, cell (i, j) holds mask cell (i, j mod nz)), located on the padded
+   image, the copies inside the box are kept.  Droplets inside the z range (rendering never wraps in z: F19), separated
+   under the PERIODIC metric along z: rad_i + rad_j + dz <= |c_i - c_j| and rad_i + rad_j + dz + |c_i - c_j| <= L
+   (the latter also for i = j: 2 rad_i + dz <= L).  One candidate per original, inside [z_lo, z_hi) *)
+Theorem C01_cylindrical_periodic_emulsion : forall (g : cylgrid) (ds : list (Q * Q)) img_pad img,
+  cyl_ok g -> cg_per g = true ->
+  (forall d, In d ds -> cg_zlo g <= fst d - snd d /\ fst d + snd d <= cg_zhi g) ->
+  (forall d, In d ds -> cyl_cells g (fst d) (snd d) <> []) ->
+  (forall i j di dj, nth_error ds i = Some di -> nth_error ds j = Some dj -> i <> j ->
+     snd di + snd dj + cg_dz g <= Qabs (fst di - fst dj)) ->
+  (forall di dj, In di ds -> In dj ds -> snd di + snd dj + cg_dz g + Qabs (fst di - fst dj) <= cg_len g) ->
+  wf_img (cyl_axes3 g) img_pad -> LabelSpecImg img_pad ->
+  (forall idx, LocateCart.in_range [cg_nr g; (3 * cg_nz g)%Z] idx ->
+     (lab_of img_pad idx <> 0%nat <-> cyl_inside_any g ds (ridx idx) (zidx idx mod cg_nz g) = true)) ->
+  num_labels img_pad = (3 * length ds)%nat /\
+  length (cyl_candidates g img_pad img) = length ds /\
+  exists cidx : nat -> nat,
+    (forall i, (i < length ds)%nat -> (cidx i < length ds)%nat) /\
+    (forall i j, (i < length ds)%nat -> (j < length ds)%nat -> cidx i = cidx j -> i = j) /\
+    forall i c rad, nth_error ds i = Some (c, rad) ->
+      exists z v, nth_error (cyl_candidates g img_pad img) (cidx i) = Some (z, v) /\
+        v == Components.lsum (cyl_cells g c rad) (fun p => shell g (ridx p)) /\
+        Qabs (z - c) <= cg_dz g / 2 /\ cg_zlo g <= z /\ z < cg_zhi g.
+Proof. exact c01_cyl_multi_periodic. Qed.
+Print Assumptions C01_cylindrical_periodic_emulsion.
+
+(* end to end on cylinders: render (Model/RenderSym.v cyl_mask; C01CylMulti.cyl_mask_pad for the padded image), label
+   (Model/Label.v), locate -- no oracle premise left *)
+Theorem C01_cylindrical_emulsion_end_to_end : forall (g : cylgrid) (ds : list (Q * Q)) img_pad,
+  let img := mk_limage [cg_nr g; cg_nz g] (label [cg_nr g; cg_nz g] (cyl_mask g ds)) in
+  cg_per g = false -> cyl_ok g ->
+  (forall d, In d ds -> cg_zlo g <= fst d - snd d /\ fst d + snd d <= cg_zhi g) ->
+  (forall d, In d ds -> cyl_cells g (fst d) (snd d) <> []) ->
+  (forall i j di dj, nth_error ds i = Some di -> nth_error ds j = Some dj -> i <> j ->
+     snd di + snd dj + cg_dz g <= Qabs (fst di - fst dj)) ->
+  length (cyl_candidates g img_pad img) = length ds /\
+  exists cidx : nat -> nat,
+    (forall i, (i < length ds)%nat -> (cidx i < length ds)%nat) /\
+    (forall i j, (i < length ds)%nat -> (j < length ds)%nat -> cidx i = cidx j -> i = j) /\
+    forall i c rad, nth_error ds i = Some (c, rad) ->
+      exists z v, nth_error (cyl_candidates g img_pad img) (cidx i) = Some (z, v) /\
+        v == Components.lsum (cyl_cells g c rad) (fun p => shell g (ridx p)) /\
+        Qabs (z - c) <= cg_dz g / 2.
+Proof. exact c01_cyl_multi_label. Qed.
+Print Assumptions C01_cylindrical_emulsion_end_to_end.
+
+Theorem C01_cylindrical_periodic_emulsion_end_to_end : forall (g : cylgrid) (ds : list (Q * Q)) img,
+  let shape3 := [cg_nr g; (3 * cg_nz g)%Z] in
+  let img_pad := mk_limage shape3 (label shape3 (cyl_mask_pad g ds)) in
+  cyl_ok g -> cg_per g = true ->
+  (forall d, In d ds -> cg_zlo g <= fst d - snd d /\ fst d + snd d <= cg_zhi g) ->
+  (forall d, In d ds -> cyl_cells g (fst d) (snd d) <> []) ->
+  (forall i j di dj, nth_error ds i = Some di -> nth_error ds j = Some dj -> i <> j ->
+     snd di + snd dj + cg_dz g <= Qabs (fst di - fst dj)) ->
+  (forall di dj, In di ds -> In dj ds -> snd di + snd dj + cg_dz g + Qabs (fst di - fst dj) <= cg_len g) ->
+  num_labels img_pad = (3 * length ds)%nat /\
+  length (cyl_candidates g img_pad img) = length ds /\
+  exists cidx : nat -> nat,
+    (forall i, (i < length ds)%nat -> (cidx i < length ds)%nat) /\
+    (forall i j, (i < length ds)%nat -> (j < length ds)%nat -> cidx i = cidx j -> i = j) /\
+    forall i c rad, nth_error ds i = Some (c, rad) ->
+      exists z v, nth_error (cyl_candidates g img_pad img) (cidx i) = Some (z, v) /\
+        v == Components.lsum (cyl_cells g c rad) (fun p => shell g (ridx p)) /\
+        Qabs (z - c) <= cg_dz g / 2 /\ cg_zlo g <= z /\ z < cg_zhi g.
+Proof. exact c01_cyl_multi_periodic_label. Qed.
+Print Assumptions C01_cylindrical_periodic_emulsion_end_to_end.
+
 (* ===== end to end: render (Model/Render.v), label (Model/Label.v, proved to meet the specification of
    scipy.ndimage.label), locate -- no oracle premise left ===== *)
 Theorem C01_cartesian_single_end_to_end : forall g c r,
@@ -208,4 +325,5 @@ Proof.
   split; [vm_compute; discriminate|vm_compute; reflexivity].
 Qed.
 (* non-vacuity of the Cartesian theorems: Proofs/C01Cart.v c01_single_nonvacuous, c01_multi_nonvacuous,
-   c01_periodic_nonvacuous (concrete grids and droplets satisfying every hypothesis) *)
+   c01_periodic_nonvacuous (concrete grids and droplets satisfying every hypothesis); of the cylindrical emulsion theorems:
+   Proofs/C01CylMulti.v c01_cyl_multi_nonvacuous, c01_cyl_multi_periodic_nonvacuous (two spheres on a 3 x 10 cylinder) *)
